@@ -252,6 +252,13 @@ def inline_consts(fn, ev):
     return all(is_c(a) for a in ev["args"])
 
 
+class HDict(dict):
+    """a callee description inside a term: hashable (by the function it names) so that terms can be dictionary keys"""
+
+    def __hash__(self):
+        return hash(self.get("canon") or self.get("def") or "")
+
+
 class State:
     __slots__ = ("frames", "store", "pc", "events", "visits", "steps", "tagfacts", "status", "ret", "ids")
 
@@ -493,7 +500,7 @@ class Engine:
     def const(self, fr, o):
         ty = o["ty"]
         if "fn" in o:
-            return ("fn", o["fn"]["full"], o["fn"])
+            return ("fn", o["fn"]["full"], HDict(o["fn"]))
         if "closure" in o:
             return ("closure", o["closure"])
         if "int" in o:
@@ -830,6 +837,8 @@ class Engine:
         args = [self.operand(st, fr, a) for a in t["args"]]
         if callee is None and t.get("func") is not None:
             fv = self.operand(st, fr, t["func"])
+            while fv[0] == "cast" and isinstance(fv[2], tuple) and fv[2]:
+                fv = fv[2]
             if fv[0] == "fn" and len(fv) > 2 and isinstance(fv[2], dict):
                 callee = fv[2]          # a function pointer whose value is a known fn item
         key = callee_key(callee)
@@ -1333,6 +1342,10 @@ def _m_to_le_bytes(eng, st, callee, args, ev, be=False):
         return NotImplemented
     n = INT_BITS[ty] // 8
     x = args[0]
+    if x[0] == "from_bytes" and x[2] == ty and x[3][0] == "agg" and x[3][1] == "array" and len(x[3][5]) == n:
+        # bytes of an integer that was assembled from bytes: the same bytes, reversed when the two byte orders differ
+        el = x[3][5] if (x[1] == "be") == be else tuple(reversed(x[3][5]))
+        return ("agg", "array", None, None, None, tuple(el))
     elems = []
     for k in range(n):
         sh = mk_bin("Shr", x, C(8 * k, "u32"), ty) if k else x
@@ -1356,6 +1369,17 @@ def _m_from_le_bytes(eng, st, callee, args, ev, be=False):
 
 def _m_from_be_bytes(eng, st, callee, args, ev):
     return _m_from_le_bytes(eng, st, callee, args, ev, be=True)
+
+
+def _m_swap_bytes(eng, st, callee, args, ev):
+    ty = _int_self(callee)
+    if ty is None:
+        return NotImplemented
+    x = args[0]
+    if x[0] == "from_bytes" and x[2] == ty:
+        return ("from_bytes", "le" if x[1] == "be" else "be", ty, x[3])
+    le = _m_to_le_bytes(eng, st, callee, [x], ev)
+    return ("from_bytes", "be", ty, le)      # the integer whose big-endian bytes are x's little-endian bytes
 
 
 def _m_leading_zeros(eng, st, callee, args, ev):
@@ -1761,6 +1785,8 @@ def _callable(eng, t):
     """('closure', body fn) | ('fn', dict) | ('ctor', dict) | None for a function-valued term"""
     if not isinstance(t, tuple) or not t:
         return None
+    while t[0] == "cast" and isinstance(t[2], tuple) and t[2]:
+        t = t[2]            # a fn item reified into a fn pointer is still that function
     if t[0] == "fn" and len(t) > 2 and isinstance(t[2], dict):
         return ("ctor", t[2]) if (t[2].get("dk") or "").startswith("Ctor") else ("fn", t[2])
     cf = _closure_fn(eng, t)
@@ -2315,6 +2341,7 @@ for _t in ("u8", "i8", "u16", "i16", "u32", "i32", "u64", "i64", "u128", "i128",
     MODELS["core::num::<impl %s>::from_be_bytes" % _t] = _m_from_be_bytes
     MODELS["core::num::<impl %s>::leading_zeros" % _t] = _m_leading_zeros
     MODELS["core::num::<impl %s>::wrapping_neg" % _t] = _m_wrapping_neg
+    MODELS["core::num::<impl %s>::swap_bytes" % _t] = _m_swap_bytes
 
 
 # ---- pretty printing -------------------------------------------------------------------------
